@@ -394,7 +394,7 @@ def install(eng):
                     else: items[j - 1], items[j] = ite(gt, items[j], items[j - 1]), ite(gt, items[j - 1], items[j])
             eng.write_ref(cur, ref, VecV.dense(items)); outs.append((cur, UNIT))
         return outs
-    M(r'^std::slice::<impl \[.*\]>::sort_by$|core::slice::<impl \[.*\]>::sort_by$', sort_by)
+    M(r'^std::slice::<impl \[.*\]>::sort_by$|core::slice::<impl \[.*\]>::sort_by$|core::slice::<impl \[.*\]>::sort_unstable_by$', sort_by)
     def slice_get(e, st, fr, f, a, m):
         v = D(st, a[0]); i = a[1]
         if isz(i): raise Inconclusive('symbolic index in get')
